@@ -253,8 +253,18 @@ def materialise(w, tmp):
                           info_keys=(), filters=())
     g = {}
     for enc in ("PS", "HP"):
-        g[enc] = world.write_vcf(os.path.join(tmp, f"g{enc}.vcf"), w["samples"], [("chr1", L)], truth_records(w, enc),
+        trecs = truth_records(w, enc)
+        g[enc] = world.write_vcf(os.path.join(tmp, f"g{enc}.vcf"), w["samples"], [("chr1", L)], trecs,
                                  fmt_keys=("GT", "PS", "HP"), info_keys=(), filters=())
+        # the same phase information as one file PER SAMPLE (each file phases one sample and leaves the others unphased)
+        for k in range(len(w["samples"])):
+            recs_k = []
+            for r in trecs:
+                calls = [list(c) if j == k else [c[0].replace("|", "/") if "|" not in c[0] else "/".join(sorted(c[0].split("|"))), "."]
+                         for j, c in enumerate(r["calls"])]
+                recs_k.append(dict(r, calls=calls))
+            g[f"{enc}:{k}"] = world.write_vcf(os.path.join(tmp, f"g{enc}_{k}.vcf"), w["samples"], [("chr1", L)], recs_k,
+                                              fmt_keys=("GT", "PS", "HP"), info_keys=(), filters=())
     return fasta, bam, vcf, g
 
 
@@ -439,7 +449,7 @@ def _drive(sc, tmp):
     proj0, _, names = H.project_vcf(f0)
     assert names == samples and len(proj0["recs"]) == nrec
     evs = [{"ev": "Load", "id": 0, "file": proj0, "dec": decode_real(f0, samples, primary, osw)}]
-    gproj = {enc: H.project_vcf(p)[0] for enc, p in gpaths.items()}
+    gproj = {enc: H.project_vcf(p)[0] for enc, p in gpaths.items() if ":" not in enc}
     cur, nxt = 0, 1
 
     def new():
@@ -467,7 +477,13 @@ def _drive(sc, tmp):
         if inp == "bam":
             exc = H.run_phase_file(paths[src], paths[dst], tag, tnames, [bam], reference=fasta, writer_hook=hook, only_snvs=snvs)
         else:
-            exc = H.run_phase_file(paths[src], paths[dst], tag, tnames, [gpaths[inp[4:]]], reference=False, writer_hook=hook,
+            ginputs = [gpaths[inp[4:]]]
+            if len(samples) > 1 and (src + len(T)) % 2 == 0:
+                # per-sample phase-input files covering the same chromosome, in either command-line order
+                ginputs = [gpaths[f"{inp[4:]}:{k}"] for k in range(len(samples))]
+                if src % 2:
+                    ginputs.reverse()
+            exc = H.run_phase_file(paths[src], paths[dst], tag, tnames, ginputs, reference=False, writer_hook=hook,
                                    only_snvs=snvs)
         # records this run does not support (by construction of the world, not by asking whatshap)
         skip = [bool(r["skip"]) or (snvs and r["indel"]) for r in roles]
